@@ -403,8 +403,19 @@ func genC12(tier string, r *rng) {
 		b := randomPGP(r, nil)
 		emit("pgp", append([]string{hx(b.binary), "G"}, b.gt...)...)
 	}
-	// all 2^5 displayed usage-flag combinations on one identity
 	fs := pgpKeyFactories()
+	// every digest a self-signature may use (RFC 4880 9.4): MD5, SHA-1, RIPEMD-160 (GnuPG 1.0's default certification
+	// digest), SHA-256/384/512/224 — a well-formed key is described whichever one its signatures are made with
+	for _, hid := range []byte{1, 2, 3, 8, 9, 10, 11} {
+		for _, pi := range []int{0, 3} {
+			pgpSigHash = hid
+			b := buildPGP(fs[pi](1500000000), []pgpIdentity{{name: fmt.Sprintf("digest %d <d@x>", hid), flags: 3, sigCreated: 1500000100, lifetime: 86400 * 365}},
+				[]pgpSubkey{{key: newECDHKey(1500000200, false, nil, r), flags: 0x0c, sigCreated: 1500000300, lifetime: -1}}, false)
+			pgpSigHash = 8
+			emit("pgp", append([]string{hx(b.binary), "G"}, b.gt...)...)
+		}
+	}
+	// all 2^5 displayed usage-flag combinations on one identity
 	for fl := 0; fl < 64; fl++ {
 		p := fs[3](1700000000)
 		b := buildPGP(p, []pgpIdentity{{name: "flags", flags: fl, sigCreated: 1700000000, lifetime: -1}}, nil, false)
